@@ -247,12 +247,33 @@ def part(fn):
     return wrapper
 
 
+class BudgetExhausted(BaseException):
+    """wall-clock budget of a check run is used up (BaseException: not swallowed by the per-part guards)"""
+
+
 def main(prop, body):
     """Run `body(check)`; map exceptions to the inconclusive exit code 2."""
     chk = Check(prop)
+    import signal
+    budget = int(os.environ.get('VERIF_BUDGET_S', '0') or 0) or (7200 if chk.tier == 'thorough' else 1500)
+
+    def on_alarm(signum, frame):
+        raise BudgetExhausted()
+    signal.signal(signal.SIGALRM, on_alarm)
+    signal.alarm(budget)
     try:
         chk.load()
-        body(chk)
+        try:
+            body(chk)
+        except BudgetExhausted:
+            # what was decided (and confirmed) so far is reported; the rest is inconclusive - never a pass
+            signal.alarm(0)
+            chk.inconclusive.append('wall-clock budget of %d s used up before every part had run' % budget)
+            for ob in chk.obligations:
+                if ob.verdict == 'violated' and not getattr(ob, 'replay', None) and ob.kind != 'witness':
+                    ob.verdict = 'inconclusive'
+                    ob.detail = (ob.detail or '') + ' | budget used up before native confirmation'
+        signal.alarm(0)
         rc = chk.finish()
     except Inconclusive as e:
         traceback.print_exc()
@@ -398,6 +419,8 @@ def default_by_type(M, ty, name):
         return Adt(ty, {}, 0)
     if head == 'Vec':
         return Obj('vec', items=(), ty=ty)
+    if head == 'HashSet':
+        return M.new_assoc(g[0] if g else '?', '()', [])
     if head in ('HashMap', 'BTreeMap', 'LinkedHashMap'):
         m = M.new_assoc(g[0] if g else '?', g[1] if len(g) > 1 else '?', [])
         return m.set(linked=True) if head != 'HashMap' else m
